@@ -379,7 +379,13 @@ def gen_playback(prop, h, repo, scratch, idx, tier_caps):
     subprocess.run(["cp", "-al", os.path.join(scratch, "t0"), tdir], check=True)
     logf = os.path.join(scratch, "logs", h["name"] + ".playback.log")
     cmd = kani_cmd(prop, h, tdir, ["-Z", "concrete-playback", "--concrete-playback=print"])
-    run_proc(cmd, repo, logf, h.get("timeout", tier_caps["timeout"]) * 2, h.get("mem", tier_caps["mem"]))
+    # the trace (CBMC JSON) is parsed by kani-driver inside the same limit: give the playback run more room
+    pmem = max(28, 2 * h.get("mem", tier_caps["mem"]))
+    tok = BUDGET.acquire(pmem)
+    try:
+        run_proc(cmd, repo, logf, h.get("timeout", tier_caps["timeout"]) * 3, pmem)
+    finally:
+        BUDGET.release(tok)
     text = open(logf, errors="replace").read()
     shutil.rmtree(tdir, ignore_errors=True)
     if os.environ.get("VERIF_KEEP_LOGS"):
